@@ -237,7 +237,11 @@ pub struct VarAsBuiltInFunctionCall {
 
 impl VarResolve for VarAsBuiltInFunctionCall {
     fn can_handle(&mut self, _ctx: &LinterContext, name: &Name) -> bool {
-        self.built_in_function = BuiltInFunction::try_parse(name.as_bare_name());
+        // some names are built-in functions only when they are qualified (e.g. STR$)
+        self.built_in_function = match try_built_in_function(name) {
+            Ok(None) => None,
+            _ => BuiltInFunction::try_parse(name.as_bare_name()),
+        };
         self.built_in_function.is_some()
     }
 
